@@ -52,33 +52,44 @@ fn e_tomlerr(e: toml_edit::TomlError, pre: bool) -> RouteErr {
     RouteErr { message: e.message().to_string(), span: e.span().map(|r| (r.start, r.end)), rendered: e.to_string(), pre_peer: pre, obj: std::rc::Rc::new(e) }
 }
 
-/// Run one route. For R7a/R7b `text` must be the text of a single value.
-pub fn run_route(route: &str, text: &str, ty: &Ty, cfg: &RCfg, cx: &Ctx) -> Result<Val, RouteErr> {
+/// Run one route with any root adapter type (`DynVal` for the stub peer, `DynReal<T>` for real
+/// types). For R7a/R7b `text` must be the text of a single value.
+pub fn run_route_g<D: serde::de::DeserializeOwned>(route: &str, text: &str) -> Result<D, RouteErr> {
     match route {
-        R1 => with_peer(ty, cfg, cx, || toml::from_str::<DynVal>(text)).map(|d| d.0).map_err(|e| e_toml(e, false)),
-        R2 => with_peer(ty, cfg, cx, || toml_edit::de::from_str::<DynVal>(text)).map(|d| d.0).map_err(|e| e_edit(e, false)),
-        R3 => with_peer(ty, cfg, cx, || toml_edit::de::from_slice::<DynVal>(text.as_bytes())).map(|d| d.0).map_err(|e| e_edit(e, false)),
+        R1 => toml::from_str::<D>(text).map_err(|e| e_toml(e, false)),
+        R2 => toml_edit::de::from_str::<D>(text).map_err(|e| e_edit(e, false)),
+        R3 => toml_edit::de::from_slice::<D>(text.as_bytes()).map_err(|e| e_edit(e, false)),
         R4 => {
             let doc = text.parse::<toml_edit::DocumentMut>().map_err(|e| e_tomlerr(e, true))?;
-            with_peer(ty, cfg, cx, || toml_edit::de::from_document::<DynVal>(doc)).map(|d| d.0).map_err(|e| e_edit(e, false))
+            toml_edit::de::from_document::<D>(doc).map_err(|e| e_edit(e, false))
         }
         R4I => {
             let doc = toml_edit::ImDocument::parse(text.to_string()).map_err(|e| e_tomlerr(e, true))?;
-            with_peer(ty, cfg, cx, || toml_edit::de::from_document::<DynVal>(doc)).map(|d| d.0).map_err(|e| e_edit(e, false))
+            toml_edit::de::from_document::<D>(doc).map_err(|e| e_edit(e, false))
         }
         R5 => {
             let v = toml::from_str::<toml::Value>(text).map_err(|e| e_toml(e, true))?;
-            with_peer(ty, cfg, cx, || v.try_into::<DynVal>()).map(|d| d.0).map_err(|e| e_toml(e, false))
+            v.try_into::<D>().map_err(|e| e_toml(e, false))
         }
         R6 => {
             let t = toml::from_str::<toml::Table>(text).map_err(|e| e_toml(e, true))?;
-            with_peer(ty, cfg, cx, || t.try_into::<DynVal>()).map(|d| d.0).map_err(|e| e_toml(e, false))
+            t.try_into::<D>().map_err(|e| e_toml(e, false))
         }
-        R7A => with_peer(ty, cfg, cx, || DynVal::deserialize(toml::de::ValueDeserializer::new(text))).map(|d| d.0).map_err(|e| e_toml(e, false)),
+        R7A => D::deserialize(toml::de::ValueDeserializer::new(text)).map_err(|e| e_toml(e, false)),
         R7B => {
             let de = text.parse::<toml_edit::de::ValueDeserializer>().map_err(|e| e_edit(e, true))?;
-            with_peer(ty, cfg, cx, || DynVal::deserialize(de)).map(|d| d.0).map_err(|e| e_edit(e, false))
+            D::deserialize(de).map_err(|e| e_edit(e, false))
         }
         other => Err(RouteErr { message: format!("HARNESS: unknown route {other}"), span: None, rendered: String::new(), pre_peer: true, obj: std::rc::Rc::new(String::new()) }),
     }
+}
+
+/// Run one route with the stub reader peer.
+pub fn run_route(route: &str, text: &str, ty: &Ty, cfg: &RCfg, cx: &Ctx) -> Result<Val, RouteErr> {
+    with_peer(ty, cfg, cx, || run_route_g::<DynVal>(route, text)).map(|d| d.0)
+}
+
+/// Run one route with a real target type.
+pub fn run_route_real<T: serde::de::DeserializeOwned>(route: &str, text: &str, cx: &Ctx) -> Result<T, RouteErr> {
+    crate::dynpeer::with_cx(cx, || run_route_g::<crate::dynpeer::DynReal<T>>(route, text)).map(|d| d.0)
 }
